@@ -53,8 +53,8 @@ pub fn tokenize(source: &str, file_id: &FileId) -> (Vec<Token>, Vec<Diagnostic>)
                                     line += 1;
                                     col = 0;
                                 }
-                                _ => {
-                                    col += 0;
+                                c => {
+                                    col += c.len_utf8();
                                 }
                             }
                         }
